@@ -40,7 +40,7 @@ NOT_STATE = {"p.maxAssemNum"}
 
 
 def gen_plan(rng, index, tier):
-    rings = rng.choice([2, 3, 3, 4])
+    rings = rng.choice([2, 3, 3, 4, 5, 5])
     bp = {"rings": rings, "symmetry": "third periodic", "third": True, "nfuel": rng.choice([1, 2]), "plate": rng.random() < 0.3, "plenum": rng.random() < 0.3, "sfp": rng.random() < 0.5, "geom": "hex"}
     holes = []
     cells = [c for c in inputs.hex_cells(rings) if c != (0, 0)]
@@ -49,7 +49,9 @@ def gen_plan(rng, index, tier):
     if rng.random() < 0.15:
         holes.append((0, 0))  # a core without the centre assembly
     bp["holes"] = [list(h) for h in holes]
-    cfg = {"reactor": "gen", "blueprint": bp, "settings": {"nCycles": 1, "burnSteps": 1}, "actors": []}
+    # one changer object for every conversion of the run (what a long-lived interface does), or a
+    # fresh one per conversion
+    cfg = {"reactor": "gen", "blueprint": bp, "settings": {"nCycles": 1, "burnSteps": 1}, "actors": [], "reuseChanger": rng.random() < 0.5}
     steps = []
     uid = 0
     for _ in range(rng.randint(3, 14)):
@@ -70,6 +72,10 @@ def simplify(plan):
             p = copy.deepcopy(plan)
             p["config"]["blueprint"][key] = simple
             yield p
+    if plan["config"].get("reuseChanger"):
+        p = copy.deepcopy(plan)
+        p["config"]["reuseChanger"] = False
+        yield p
     if bp.get("rings", 2) > 2:
         p = copy.deepcopy(plan)
         p["config"]["blueprint"]["rings"] -= 1
@@ -176,6 +182,9 @@ class Runner:
         self.before_edge = None
         self.had_edge_before_convert = False
         self.applied = []
+        self.reusable = None
+        self.assigned = set()
+        self.list_built_with = None
         self.edge_op_since_edit = False
 
     def probe(self, k):
@@ -204,6 +213,7 @@ class Runner:
             blks = list(core.iterBlocks())
             if st["which"] in ("power", "vVol"):
                 self.edge_op_since_edit = False
+                self.assigned.add(st["which"])
             if st["which"] == "power":
                 for j, b in enumerate(blks):
                     b.p.power = 1000.0 * st["u"] + j
@@ -229,7 +239,15 @@ class Runner:
             edge_ids = {id(a) for a in core.getAssembliesOnSymmetryLine(grids.BOUNDARY_120_DEGREES)}
             src = {i: xy for i, xy in src_centres.items() if i not in edge_ids}
             src_objs = {id(x) for a in core for x in [a] + list(a.iterChildren(deep=True))}
-            ch = gc.ThirdCoreHexToFullCoreChanger(self.cs)
+            if self.plan["config"].get("reuseChanger"):
+                if self.reusable is None:
+                    self.reusable = gc.ThirdCoreHexToFullCoreChanger(self.cs)
+                    self.list_built_with = set(self.assigned)
+                else:
+                    self.probe("changer_reused")
+                ch = self.reusable
+            else:
+                ch = gc.ThirdCoreHexToFullCoreChanger(self.cs)
             ch.convert(self.r)
             self.changer = ch
             self.check_converted(k, st, src, t0, src_objs, edge_ids)
@@ -343,6 +361,9 @@ class Runner:
                         f"step {k}: total {key} after convert is {t1[key]}, third-core value was {t0[key]} (x3 = {3.0 * t0[key]})",
                         what="volume-integrated" if key.startswith("sum_") else key if not key.startswith("m_") else "nuclide-mass",
                         edgeOpSinceAssignment=self.edge_op_since_edit,
+                        firstAssignedAfterChangerBuiltItsList=bool(
+                            self.plan["config"].get("reuseChanger") and self.list_built_with is not None and key[4:] not in self.list_built_with
+                        ),
                     )
         _ = new_objs
 
